@@ -189,44 +189,73 @@ def one_world(args):
 
 
 def client_model_ops(cops, clines):
-    """model ops for the tunnel phase of a world run: the configuration, the state the real handshake reached (`cset` from the digest), then
-    every input the real client was fed (`ans` replaced by what read_dns_withq returned: the `rq` event; raw mode: the datagram)."""
+    """model ops for a world run, from the very first client op: the configuration (`ccfg`, `crand`, `ctime`), `start handshake …` and every
+    input the real client was fed during the handshake and the tunnel phase (`ans` replaced by what read_dns_withq returned: the `rq` event;
+    raw mode and the raw login of the handshake: the datagram, `rawans`).  After a modelled handshake `start tunnel` continues on the state
+    the handshake MODEL reached.  A run without `start handshake` (tunnel-only callers) gets the state the real client reached (`cset` from
+    the digest) as before.  Returns (model ops, expected lines, number of handshake-phase ops) or None."""
     mops, expect = [], []
-    started = False
+    phase = "cfg"              # cfg -> handshake -> (between) -> tunnel
+    modelled_hs = False
+    nhs = 0
     last_state = None
     raw = False
+    raw_login = False          # the thread is parked in the raw login's own select (handshake_raw_udp): it was entered by a `rawtx`
     for op, line in zip(cops, clines):
         t = op.split()
         ev, sel, st = world.parse_cli(line)
-        if not started:
-            if t[0] == "ccfg":
+        if phase in ("cfg", "between"):
+            if t[0] in ("ccfg", "crand", "ctime"):
                 mops.append(op); expect.append("ok")
-            elif t[:2] == ["start", "tunnel"]:
-                if last_state is None:
-                    return None
-                keys = ("cid", "rs", "enc", "dn", "lazy", "sel", "qt", "e0", "conn", "sps", "ldt", "now", "ml", "uid")
-                mops.append("cset " + " ".join("%s=%s" % (k, last_state[k] if last_state.get(k, "") != "" else " ") for k in keys if k in last_state and last_state[k] != ""))
-                expect.append("ok")
+                if t[0] == "ccfg":
+                    modelled_hs = False
+            elif t[:2] == ["start", "handshake"]:
                 mops.append(op); expect.append(line)
-                started = True
+                phase, modelled_hs = "handshake", True
+                nhs += 1
+                raw_login = any(e[0] == "rawtx" for e in ev)
+                if sel is None:
+                    phase = "between"
+            elif t[:2] == ["start", "tunnel"]:
+                if not modelled_hs:
+                    if last_state is None:
+                        return None
+                    keys = ("cid", "rs", "enc", "dn", "lazy", "sel", "qt", "e0", "conn", "sps", "ldt", "now", "ml", "uid")
+                    mops.append("cset " + " ".join("%s=%s" % (k, last_state[k] if last_state.get(k, "") != "" else " ") for k in keys if k in last_state and last_state[k] != ""))
+                    expect.append("ok")
+                mops.append(op); expect.append(line)
+                phase = "tunnel"
                 raw = st.get("conn") == "0"
+            elif t[0] == "start":
+                break          # another single-function job: not modelled here
             if st:
                 last_state = st
             continue
         if t[0] == "ans":
             rq = next((e for e in ev if e[0] == "rq"), None)
-            if raw or rq is None:
+            if (phase == "tunnel" and raw) or (phase == "handshake" and raw_login) or rq is None:
                 mops.append("rawans " + t[1])
             else:
                 mops.append("rq %s %s %s %s %s %s" % rq[1:7])
-        elif t[0] in ("tick", "tun", "ctime"):
+        elif t[0] in ("tick", "tun"):
             mops.append(op)
+        elif t[0] == "ctime":
+            mops.append(op); expect.append("ok")
+            continue
         else:
             break
         expect.append(line)
+        if phase == "handshake":
+            nhs += 1
+            raw_login = any(e[0] == "rawtx" for e in ev) if any(e[0] in ("rawtx", "tx") for e in ev) else raw_login
+            if sel is None:
+                phase = "between"
         if st:
+            last_state = st
             raw = st.get("conn") == "0"
-    return mops, expect
+    if not any(o.startswith("start ") for o in mops):
+        return None
+    return mops, expect, nhs
 
 
 def project_cli(line):
@@ -234,21 +263,58 @@ def project_cli(line):
 
 
 def client_model_diff(chk, res):
-    """run the Lean client model on the tunnel phase of every world run; returns (#ops compared, #diffs, first diff | None) or None (no driver)"""
+    """run the Lean client model on every world run, handshake and tunnel phase; returns (#ops compared, #diffs, first diff | None) or None
+    (no driver); handshake statistics are left in `client_model_diff.hs` (ops of the handshake phase compared, first characters of the
+    queries the handshakes sent, return values)"""
     drv = chk.driver()
     if drv is None:
         return None
     n, nd, first = 0, 0, None
+    hs = {"ops_compared": 0, "runs": 0, "query_first_char": {}, "returns": {}, "rawtx": 0}
+    client_model_diff.hs = hs
     for r in res:
         mo = client_model_ops(r.get("cops", []), r.get("clines", []))
         if not mo:
             continue
-        mops, expect = mo
+        mops, expect, nhs = mo
         m = vlib.run_lines(drv, mops)
+        in_hs = False
         for i, (o, e) in enumerate(zip(mops, expect)):
             a = project_cli(e)
             b = m.lines[i] if i < len(m.lines) else "<no-answer>"
             n += 1
+            if o.startswith("start handshake"):
+                in_hs = True
+                hs["runs"] += 1
+            elif o.startswith("start "):
+                in_hs = False
+            if in_hs and e != "ok":
+                hs["ops_compared"] += 1
+                for part in a.split(" | "):
+                    w = part.split(" ")
+                    if w[0] == "query" and len(w) == 4 and len(w[3]) >= 2:
+                        ch = chr(int(w[3][:2], 16))
+                        hs["query_first_char"][ch] = hs["query_first_char"].get(ch, 0) + 1
+                        nm = bytes.fromhex(w[3])
+                        det = None
+                        if ch == "y":
+                            det = "y:downenctest codec " + chr(nm[1])
+                        elif ch == "o":
+                            det = "o:" + ("lazy switch" if nm[2:3] == b"l" else "switch_downenc " + chr(nm[2]))
+                        elif ch == "s":
+                            det = "s:switch_codec " + {"f": "5", "g": "6", "0": "26", "h": "7"}.get(chr(nm[2]), "?" + chr(nm[2]))
+                        elif ch == "z":
+                            body = nm[4:]
+                            det = "z:" + ("pat128a" if body.startswith(b"aA-Aaahhh") else "pat128b" if body.startswith(b"aA-La") else "pat128d" if body.startswith(b"aA0123") else
+                                          "pat128e" if body.startswith(b"aA\xd0") else "pat64u" if b"_0129-" in body else "pat64" if b"+0129-" in body else "pat128c")
+                        if det:
+                            hs.setdefault("detail", {})[det] = hs.setdefault("detail", {}).get(det, 0) + 1
+                    elif w[0] == "rawtx":
+                        hs["rawtx"] += 1
+                    elif w[0] in ("ret", "errx", "exit"):
+                        k = "%s %s" % (w[0], w[1])
+                        hs["returns"][k] = hs["returns"].get(k, 0) + 1
+                        in_hs = False
             if a != b:
                 nd += 1
                 if first is None:
@@ -261,12 +327,14 @@ def report_client_model(chk, res, prop):
     d = client_model_diff(chk, res)
     chk.notes["client_model_ops_compared"] = None if d is None else d[0]
     chk.notes["client_model_diffs"] = None if d is None else d[1]
+    if d is not None:
+        chk.notes["client_model_handshake"] = getattr(client_model_diff, "hs", None)
     if d is None:
         if not chk.violations:
             chk.violation("model driver does not build", ["# lake build iodmodel failed"], no_input=True)
     elif d[2] is not None and not chk.violations:
         seed, i, o, a, b, pre = d[2]
-        chk.violation("correspondence broken (Client.cstep vs client.c tunnel phase): model and implementation differ (world seed %d, client op %d); the oracle found no violation of %s.\n op: %s\n impl:  %s\n model: %s"
+        chk.violation("correspondence broken (Client.hstep/cstep vs client.c handshake + tunnel phase): model and implementation differ (world seed %d, client op %d); the oracle found no violation of %s.\n op: %s\n impl:  %s\n model: %s"
                       % (seed, i, prop, o[:200], a[:500], b[:500]), ["# correspondence Client.cstep vs client.c no longer checks; model ops up to the first difference:"] + pre, no_input=True)
 
 
